@@ -15,7 +15,7 @@ quantities taken about the body origin):
 * `momG b r V`        the body's spatial momentum shifted to the Ground origin, `Phi(r) (M V)`
 * `inertiaRate ω I`   `[ω]× I − I [ω]×` (rate of the Ground-frame inertia of a rotating body)
 * `rotSym R I`        `R I ~R`
-* `netReactionPower`, `jointPower`, `zReact`   joint reactions on a tree (reaction field `Rf : body ↦ SV`)
+* `netReactionPower`, `jointPower`   joint reactions on a tree (reaction field `Rf : body ↦ SV`)
 
 Reuses the tree, `phi`, `phiT`, `mulH`, `mulHt`, `Jet` of `SimbodyModel/C04.lean`.
 -/
@@ -105,20 +105,6 @@ def jointPower (Rf : Nat → SV K) (u : List K) : Tr K → K
 def jointPowers (Rf : Nat → SV K) (u : List K) : List (Tr K) → K
   | [] => 0
   | c :: cs => jointPower Rf u c + jointPowers Rf u cs
-end
-
-mutual
-/-- net reaction forces of a subtree accumulated at its root: `z_k = (R_k − Σ Phi_c R_c) + Σ Phi_c z_c` -/
-def zReact (Rf : Nat → SV K) : Tr K → SV K
-  | .node b cs =>
-    let r := zReacts Rf cs
-    SV.add (SV.sub (Rf b.id) r.1) r.2
-/-- siblings: (`Σ Phi_c R_c`, `Σ Phi_c z_c`) -/
-def zReacts (Rf : Nat → SV K) : List (Tr K) → SV K × SV K
-  | [] => (SV.zero, SV.zero)
-  | c :: cs =>
-    let r := zReacts Rf cs
-    (SV.add (phi c.bd.l (Rf c.bd.id)) r.1, SV.add (phi c.bd.l (zReact Rf c)) r.2)
 end
 
 /-! ## harmonic oscillator under one step of the explicit methods (discrete layer, exact polynomials in `hω`)
